@@ -162,6 +162,13 @@ def problem(draw):
     floor = 1e-5 if flavour == "evap" else 1e-6
     minor = ("Si", "Br", "Li", "Sr", "F") + (("Al", "Ba") if flavour == "trace" else ())
     sols = [draw(water(i + 1, rich=(i == 0), floor=floor, minor=minor)) for i in range(nsol)]
+    # waters must differ (identical end members make the mixing problem degenerate)
+    for i in range(1, nsol):
+        for j in range(i):
+            if sols[i]["comps"] == sols[j]["comps"]:
+                for c in sols[i]["comps"]:
+                    if c[2] != "charge":
+                        c[1] = float("%.3g" % (c[1] * (1.0 + 0.37 * i)))
     if nsol == 1:
         mix = [draw(W([(3, 1.0), (1, 0.5), (1, 2.0)]))]
     else:
@@ -260,7 +267,12 @@ def inverse_part(draw, nsol, true, user_phases, present, flavour, decoy_pool):
     ndecoy = draw(W([(2, 0), (3, 1), (3, 2), (2, 3), (1, 4), (1, 5), (1, 6), (1, 8)]))
     dpool = [p for p in decoy_pool if p not in true]
     decoys = draw(st.lists(st.sampled_from(dpool), min_size=min(ndecoy, len(dpool)), max_size=min(ndecoy, len(dpool)), unique=True))
-    allp = draw(st.permutations(tnames + decoys))
+    # keep only phases whose element stoichiometries are linearly independent (well conditioned): polymorphs (calcite +
+    # aragonite), hydrates of one salt, or closed exchange loops give a non-unique, degenerate optimisation problem in which
+    # the pinned tree's LP solver silently returns wrong answers (known findings F3-F5); true phases are kept first
+    kept = independent_subset(tnames + decoys, user_phases)
+    dropped_dep = [p for p in tnames if p not in kept]
+    allp = draw(st.permutations(kept))
     for p in allp[:12]:
         a = true.get(p)
         mode = draw(W([(3, ""), (3, "ok"), (1, "bad")]))
@@ -308,11 +320,34 @@ def inverse_part(draw, nsol, true, user_phases, present, flavour, decoy_pool):
     inv = {"phases": phases, "unc": unc, "balances": balances,
            "range": draw(W([(3, None), (3, ""), (1, 2000.0), (1, 500.0), (1, 1e5)])),
            "minimal": draw(W([(2, False), (1, True)])),
-           "tolerance": draw(W([(4, None), (1, 1e-9), (1, 1e-11), (1, 1e-12), (1, 1e-8)])),
+           "tolerance": draw(W([(4, None), (1, 1e-9), (1, 1e-8)])),
            "mineral_water": draw(W([(3, None), (1, True), (1, False)])) if not has_water else draw(W([(3, None), (1, True)])),
            "u_water": draw(W([(5, None), (1, 0.5), (1, 0.01)])),
            "force_solutions": draw(W([(4, None), (1, [True]), (1, [True, False]), (1, [False, True, True])]))}
-    return inv, {"dropped_true": bool(drop), "umode": umode}
+    return inv, {"dropped_true": bool(drop) or bool(dropped_dep), "umode": umode}
+
+
+def independent_subset(names, user_phases, smin=0.12):
+    """greedy: a phase is kept if the unit-normalised stoichiometry columns (elements other than H, O, e) of the kept
+    phases plus this one have a smallest singular value >= smin"""
+    import numpy as np
+    kept, cols, els = [], [], []
+    for p in names:
+        if p == "H2O(g)":
+            kept.append(p)
+            continue
+        v = {e: c for e, c in phase_elements(p, user_phases).items() if e not in ("H", "O", "e")}
+        for e in v:
+            if e not in els:
+                els.append(e)
+        trial = cols + [v]
+        M = np.array([[c.get(e, 0.0) for c in trial] for e in els], dtype=float)
+        M = M / np.linalg.norm(M, axis=0)
+        sv = np.linalg.svd(M, compute_uv=False)
+        if len(sv) >= len(trial) and sv[-1] >= smin:
+            kept.append(p)
+            cols = trial
+    return kept
 
 
 # ---------------------------------------------------------------------------------------------- redox problems
